@@ -3,13 +3,18 @@
 import glob, json, os
 V = os.path.dirname(os.path.dirname(os.path.abspath(__file__)))
 rows = []
+benign = []
 for f in sorted(glob.glob(os.path.join(V, 'seeded', '*', 'meta.json'))):
     m = json.load(open(f)); name = f.split('/')[-2]
+    if name.startswith('benign-') or name.startswith('legit-'):
+        cl0 = lambda t: (t or '').replace('|', '/').replace('\n', ' ')
+        benign.append(f"| {name} | {cl0(m.get('summary'))[:260]} | {', '.join(sorted(m.get('quick_checks_run_against_it', {})))} | {', '.join(m.get('false_alarms') or ['none'])} |")
+        continue
     cl = lambda t: (t or '').replace('|', '/').replace('\n', ' ')
     rows.append(f"| {name} | {cl(m.get('category',''))[:3]} | {cl(m.get('summary'))[:220]} | {cl(m.get('needs_to_manifest'))[:200]} | {', '.join(m.get('caught_by') or ['—'])} |")
 txt = f"""# Independently seeded property-breaking changes
 
-{len(rows)} changes written by fresh sub-agents (each given only one property's JSON record and a private scratch worktree of the
+{len(rows)} property-breaking changes written by fresh sub-agents (each given only one property's JSON record and a private scratch worktree of the
 repository; nothing from /verif). Round 1 (`<ID>-<n>`): three per property, free choice. Round 2 (`<ID>-r2-<n>`): three per
 property, each from a different category — (a) two cooperating edits, (b) state carried across calls, (c) configuration-specific,
 (d) boundary size / degenerate input, (e) numeric extreme, (f) wrong / stale variable after a refactoring.
@@ -21,6 +26,17 @@ None of these patches is ever applied to /repo itself.
 
 | change | cat. | what was changed | needs, to manifest | caught by (quick tier) |
 |---|---|---|---|---|
-""" + "\n".join(rows) + "\n"
+""" + "\n".join(rows) + """
+
+## Negative controls (no property is broken; every check must stay silent)
+
+`benign-<group>-<n>`: behaviour-preserving refactorings (bit-identical observable behaviour), three per file group, written by
+independent sub-agents and verified by them with differential tests. `legit-<group>-<n>`: changes that DO alter observable
+behaviour but only in ways no property forbids (other tie-breaking, another valid spanning tree, another admissible label, ...).
+Each was applied to a scratch worktree and the listed quick checks were run against it (`tools/allchecks_on_patch.sh`).
+
+| control | what was changed | checks run against it | false alarms |
+|---|---|---|---|
+""" + "\n".join(benign) + "\n"
 open(os.path.join(V, 'seeded', 'README.md'), 'w').write(txt)
 print(len(rows), 'rows')
